@@ -98,8 +98,8 @@ CLAIMS['C02'] = dict(engine='symx-lf (E4b) + rtc (E3)', category='exploration',
     technique='contract clauses of Interstitial.diffusivity as exact rational-function identities: the real source executed on symbolic prefactors/energies per enumerated network (detailed balance, null vector, bias, D0, reduced solution solves the full bias equation); run-time postcondition against the full-site-basis CTMC spec function and the Green-function calculator as bounded stand-in',
     text='Bounded: on every catalogue crystal (solve and pinv branches, vector bases of dimension 0-6, 2D and 3D, rotated settings) with seeded data the interstitial diffusivity equals the exact long-time diffusivity to 1e-9 and GFCrystalcalc.D agrees to 1e-8. Known finding (thorough tier): GFCrystalcalc.SetRates refuses diffusivities more anisotropic than about 1e6.',
     note='CTMC formula trusted as definition; catalogue and seeded data are the bound.')
-CLAIMS['C03'] = dict(engine='rtc (E3)', category='exploration',
-    technique='self-certifying run-time postconditions (symmetry, point-group invariance, positive semidefiniteness) on both calculators; bounded stand-in with known findings',
+CLAIMS['C03'] = dict(engine='symx lazy fractions (E4b) + rtc (E3)', category='exploration',
+    technique='interstitial tensors: the real Interstitial.diffusivity run on symbolic prefactors and energies (exact lazy-fraction scalars), symmetry in the Cartesian indices and invariance under every point-group rotation of D, its uncorrelated part and the barrier output decided as identities in all rates (coefficient tolerance 1e-9), one run per catalogue network (level S); self-certifying run-time postconditions (symmetry, point-group invariance, positive semidefiniteness) on both calculators; bounded stand-in with known findings',
     text='Bounded: tensors returned by Interstitial.diffusivity / elastodiffusion and VacancyMediated.Lij over the catalogue with rate ratios up to e^8. Known findings: Lsv/L1vv asymmetric on low-symmetry crystals, Lss with a negative eigenvalue on one 2D cell.',
     note='Tolerances 1e-8 (1e-5 with origin states: integration accuracy).')
 CLAIMS['C04'] = dict(engine='pyframe degree typing (E2) + symx-lf (E4b) + rtc (E3)', category='exploration',
